@@ -517,9 +517,11 @@ class CGenerator:
             s += " ".join(n.storage) + " "
         for align in n.align or []:
             s += self.visit(align) + " "
-        if n.quals and isinstance(n.type, (c_ast.Struct, c_ast.Union, c_ast.Enum)):
-            # A declaration without declarators ("const struct S;") has no
-            # TypeDecl to carry its qualifiers.
+        if n.quals and isinstance(
+            n.type, (c_ast.Struct, c_ast.Union, c_ast.Enum, c_ast.IdentifierType)
+        ):
+            # A declaration without declarators ("const struct S;", or the
+            # member "const int;") has no TypeDecl to carry its qualifiers.
             s += " ".join(n.quals) + " "
         s += self._generate_type(n.type)
         return s
